@@ -233,7 +233,13 @@ def main():
                    "source_commits": [], "add_only": True},
          "engines": [{"name": "coq-model-correspondence", "path": "/verif/check",
                       "serves_properties": sorted(CLAIMED),
-                      "kind_free_text": "Coq 8.16.1 theories (coq/theories/<ID>/{Model,Proofs,Properties,Corr}.v) + python harness running real QMI code and the model (coqc vm_compute) on the same cases"}],
+                      "kind_free_text": "Coq 8.16.1 theories (coq/theories/<ID>/{Model,Proofs*,Properties,Corr}.v; translator output in coq/gen for C05, C14, C19) + python harness "
+                                        "(harness/<id>.py on harness/common.py) running real QMI code and the model (coqc vm_compute on generated case files) on the same cases"},
+                     {"name": "dsched", "path": "/verif/harness/dsched.py",
+                      "serves_properties": ["C01", "C02", "C03", "C04", "C07", "C08", "C09", "C10", "C11", "C12", "C17"],
+                      "kind_free_text": "deterministic scheduler for real QMI threads: cooperative Lock/RLock/Condition/Event, virtual time, fake asyncio loop and in-memory "
+                                        "TCP/UDP sockets patched into qmi.* namespaces inside a forked child per schedule; random / PCT / replay strategies, stateless DFS with a "
+                                        "preemption bound, optional line-level scheduling points"}],
          "checks": checks,
          "notes": "See DESIGN.md. Evidence level 'proof' = theorems about the Coq model + measured model/implementation correspondence.",
          "not_applicable": na}
